@@ -73,6 +73,30 @@ fn after_mdc() {
     assert!(r2 == Some(0) && is_done(&st), "C09: CFB stream encryptor leaves the end-of-stream state");
 }
 
+/// source that never delivers an octet: every read fails (kind Interrupted, which std's copy/read_to_end retry)
+struct NeverSource;
+impl Read for NeverSource {
+    fn read(&mut self, _buf: &mut [u8]) -> std::io::Result<usize> {
+        Err(std::io::Error::from(std::io::ErrorKind::Interrupted))
+    }
+}
+
+/// data state, nothing buffered, source failing: the error surfaces, and a retried read() must not hand out octets
+/// (the source never produced any - whatever comes out would be scratch memory, not ciphertext)
+fn source_error_then_retry<const BL: usize>() {
+    let mut st = core::mem::ManuallyDrop::new(StreamEncryptorInner::<Aes128, NeverSource>::Data {
+        hasher: Sha1::default(),
+        encryptor: enc(),
+        buffer: BytesMut::new(),
+        source: Some(NeverSource),
+    });
+    let mut buf = [0u8; 4];
+    let r1 = okf(st.read(&mut buf[..BL]));
+    assert!(r1.is_none(), "C09: CFB stream encryptor: source error not surfaced");
+    let r2 = okf(st.read(&mut buf[..BL]));
+    assert!(!matches!(r2, Some(n) if n > 0), "C09: CFB stream encryptor hands out octets after a source error although the source never delivered any");
+}
+
 /// the primitives are irrelevant to the read() state machine: SHA-1 compression and the CFB keystream are
 /// no-ops under Kani (ciphertext = plaintext, digest = initial state); natively the real ones run
 pub fn stub_sha1_compress(_state: &mut [u32; 5], _blocks: &[generic_array::GenericArray<u8, generic_array::typenum::U64>]) {}
@@ -99,3 +123,7 @@ cproof!(c09_cfb_enc_after_prefix_2_b4, 66, { after_prefix::<2, 4>() });
 cproof!(c09_cfb_enc_after_data_b1, 66, { after_data::<1>() });
 cproof!(c09_cfb_enc_after_data_b4, 66, { after_data::<4>() });
 cproof!(c09_cfb_enc_after_mdc, 6, { after_mdc() });
+// UNREGISTERED PROBE (timeout 900 s; natively: a retried read() after a source error panics "encryption panicked" when the
+// error hit the Prefix->Data transition, or hands out scratch octets when it hit a refill - an observation outside C09's text,
+// which only requires the error to surface)
+cproof!(c09_cfb_enc_source_error_retry, 66, { source_error_then_retry::<4>() });
